@@ -310,6 +310,22 @@ func (w *World) verifyFunc(key string) (fc *FuncCtx) {
 	fc.bindGlobals(fc.oldState, entryEnv, fc.contract)
 	fc.oldEnv = entryEnv
 	fc.cover(st, "cover.pre", decl, "precondition satisfiable")
+	if why := fc.contract.Opts["noglobals"]; why != "" {
+		// `opt noglobals`: what the function hands out is built from its arguments and fresh objects only: it refers
+		// to no package-level variable (a value kept in one would be shared between its callers)
+		seen := map[string]bool{}
+		ast.Inspect(decl.Body, func(n ast.Node) bool {
+			id, ok := n.(*ast.Ident)
+			if !ok {
+				return true
+			}
+			if v, ok := fc.info.Uses[id].(*types.Var); ok && !v.IsField() && v.Pkg() != nil && v.Parent() == v.Pkg().Scope() && !seen[v.Name()] {
+				seen[v.Name()] = true
+				fc.oblige(st, "noglobals", v.Name(), "false", id, "refers to the package-level variable "+v.Name()+": "+why)
+			}
+			return true
+		})
+	}
 	end := fc.exec(st, decl.Body)
 	if !end.dead {
 		// implicit return at the end of the body
